@@ -65,6 +65,29 @@ def cases(seed, tier):
     return out
 
 
+def _kde_column_reference(ctx, u, x, prob, where):
+    """For a kernel-estimate marginal the quantile function is the library's own code: the sampled value x of a
+    draw with probability p must satisfy F_ref(x) = p, F_ref being the explicit kernel sum over the stored data
+    (minus the mass the library truncates below min - 5 std, finding F2) - 1e-8 in probability."""
+    from vmon.refs import kde as kref
+    inner = getattr(u, '_instance', None) or u
+    if type(inner).__name__ != 'GaussianKDE' or getattr(inner, '_constant_value', None) is not None:
+        return
+    data = np.asarray(inner._params['dataset'], dtype=float).ravel()
+    if len(data) < 2 or np.ptp(data) == 0 or getattr(inner, 'weights', None) is not None:
+        return
+    rows = np.flatnonzero((prob > 1e-6) & (prob < 1 - 1e-6) & np.isfinite(x))[:400]
+    if not len(rows):
+        return
+    lower = data.min() - 5 * data.std()
+    F = kref.kde_cdf(x[rows], data, inner.bw_method) - float(kref.kde_cdf(np.array([lower]), data, inner.bw_method)[0])
+    err = np.abs(F - prob[rows])
+    k = int(np.argmax(err))
+    ctx.check(err[k] <= 1e-8, 'sample.kde-column-reference', 'C01:kde-column-value-not-the-quantile-of-its-draw',
+              lambda: dict(where, value=x[rows][k], probability=prob[rows][k], reference_cdf=F[k]))
+    ctx.maxstat('KDE column |F_ref(x) - p|', float(err[k]), where)
+
+
 def _exactly(got, want):
     """Equality without a round trip through float64 when the training constant is an integer."""
     if isinstance(want, (int, np.integer)):
@@ -160,6 +183,7 @@ def run_case(spec, ctx):
                 k = int(np.argmin(same))
                 ctx.check(same.all(), 'sample.column-is-ppf-of-draw', 'C01:column-not-ppf-of-normal-draw',
                           lambda: dict(where, column=repr(c), marginal=type(u).__name__, row=k, got=V[k, j], want=want[k]))
+                _kde_column_reference(ctx, u, V[:, j], ndtr(Z[:, j]), dict(where, column=repr(c)))
     else:
         ctx.inconclusive('sample.draw-uses-fitted-correlation', 'recorded-draws-not-one-mvn-call',
                          dict(where, calls=[x['fn'] for x in log][:6]))
